@@ -603,7 +603,10 @@ static void run_json(vf::Args const& a)
   std::ofstream exp(dir + "/c19.expected.jsonl");
   std::vector<std::string> const safe_vals = {"v", "", "s p", "a,b", "k:v", "x=1;y=2"};
   std::vector<std::string> tmpls = {"{x}", "a {x} {y:>4}", "{y:>4}{x}", "{{}} {n1}", "{x} {x}", "{z:.2},{x},{n1}", "plain {{no}} args",
-                                    "{n1} a", "multi\nline {x}\n", "{x:*^5}|{y:>4}|{z:.2}|{n1}"};
+                                    "{n1} a", "multi\nline {x}\n", "{x:*^5}|{y:>4}|{z:.2}|{n1}",
+                                    // a newline only at the very end (the backend strips one trailing newline of the message
+                                    // before the sinks see it), only at the start, doubled
+                                    "tail {x}\n", "{x}\n", "\n{x}", "two {x}\n\n", "{x}\n{y:>4}"};
   size_t n = 0;
   for (auto const& t : tmpls)
     for (size_t r = 0; r < safe_vals.size(); ++r)
